@@ -685,7 +685,7 @@ func runC12(c *mon.Ctx) {
 	// asked for B's key and, answering, also volunteers a record for A's key that does not vouch for the message (another
 	// key, stale, expired): what the first fetcher supplied stays in force
 	if c.Shard == 0 {
-		for _, vol := range []string{"wrong-key", "stale-not-covering", "expired-before-ts"} {
+		for _, vol := range []string{"wrong-key", "wrong-key-valid-for-longer", "wrong-key-valid-for-less-long", "same-key-valid-for-longer", "stale-not-covering", "expired-before-ts"} {
 			for _, order := range [][2]string{{"a.example", "b.example:8448"}, {"b.example:8448", "a.example"}} {
 				for _, strict := range []bool{true, false} {
 					ts := base + 500
@@ -698,8 +698,21 @@ func runC12(c *mon.Ctx) {
 					if rec, ok := w.rec("b.example:8448", "ed25519:k1", "current", ts, nowMs); ok {
 						f2.answers[kb] = rec
 					}
-					if rec, ok := w.rec("a.example", "ed25519:k1", vol, ts, nowMs); ok {
+					switch vol {
+					case "wrong-key-valid-for-longer", "wrong-key-valid-for-less-long", "same-key-valid-for-longer":
+						// the volunteered record's validity is not the held one's: neither "the more recent of the two"
+						// nor "the longer-lived of the two" takes the place of the record that was asked for and received
+						rec, _ := w.rec("a.example", "ed25519:k1", map[bool]string{true: "current", false: "wrong-key"}[vol == "same-key-valid-for-longer"], ts, nowMs)
+						if vol == "wrong-key-valid-for-less-long" {
+							rec.validUntil -= 24 * hourMs
+						} else {
+							rec.validUntil += 48 * hourMs
+						}
 						f2.extras[ka] = rec
+					default:
+						if rec, ok := w.rec("a.example", "ed25519:k1", vol, ts, nowMs); ok {
+							f2.extras[ka] = rec
+						}
 					}
 					var reqs []kreq
 					for _, s := range order {
